@@ -40,6 +40,8 @@ LEAN_MODULES = ['Yaql.Props.C07', 'Yaql.Props.C07Gen']
 REQUIRED_THEOREMS = [
     'Yaql.Props.C07.underscore_denied', 'Yaql.Props.C07.underscore_denied_access',
     'Yaql.Props.C07.whitelist_exact', 'Yaql.Props.C07.blacklist_exact',
+    'Yaql.Props.C07.whitelist_plain_names_exact', 'Yaql.Props.C07.blacklist_plain_names_exact',
+    'Yaql.Props.C07.near_miss_refused', 'Yaql.Props.C07.near_miss_not_blocked',
     'Yaql.Props.C07.remap_targets_blacklisted', 'Yaql.Props.C07.remap_target_denied',
     'Yaql.Props.C07.same_decision', 'Yaql.Props.C07.reached_member',
     'Yaql.Props.C07.not_yaqlized_no_access', 'Yaql.Props.C07.switch_off_no_access',
@@ -565,7 +567,12 @@ RX_FAMILY = [
     dict(k='rx', start=True, end=True, atoms=[None, None, None, None]),
 ]
 RX_RAW = ['^m_*', '[a-h]+$', '^(pub|meth)$', '(?i)HIDDEN', '^[^_]*$', 'a|e']
-STR_ENTRIES = ['pub', 'hidden', 'meth', 'm_foo', '_x', 'alias', 'getChild', 'child', 'nope', '__dx__', 'am', 'other']
+STR_ENTRIES = ['pub', 'hidden', 'meth', 'm_foo', '_x', 'alias', 'getChild', 'child', 'nope', '__dx__', 'am', 'other',
+               'm_', 'a1', 'm_bar', 'hid', 'the', 'pubs', 'a']
+# several plain names in one list: unrelated ones, and names that are substrings / prefixes / suffixes of each other
+MULTI_NAMES = [['pub', 'hidden'], ['pub', 'pubs'], ['m_', 'm_foo'], ['child', 'getChild'], ['meth', 'other', 'pub'],
+               ['hidden', 'hid', 'den'], ['alias', 'am', 'a1'], ['other', 'the', 'her'], ['m_foo', 'm_bar', 'm_', 'meth'],
+               ['a', 'am', 'alias', 'a1'], ['getChild', 'child', 'hidden', 'pub', 'meth']]
 REMAPS = [
     [],
     [['alias', dict(n='hidden', tuple=False)]],
@@ -591,15 +598,69 @@ def py_entry(e):
     return PREDS[e['i']][1]
 
 
-def model_entry(e):
+def model_entry(e, names=None):
     """regexes of the modelled family are sent as they are; predicates and other regexes as the
     table of probe names they accept"""
+    names = NAMES if names is None else names
     if e['k'] in ('str', 'rx'):
         return e
     pe = py_entry(e)
     if e['k'] == 'rxraw':
-        return dict(k='table', acc=[n for n in NAMES if pe.search(n) is not None])
-    return dict(k='table', acc=[n for n in NAMES if pe(n)])
+        return dict(k='table', acc=[n for n in names if pe.search(n) is not None])
+    return dict(k='table', acc=[n for n in names if pe(n)])
+
+
+# ---- near-miss member names -------------------------------------------------------------------------------------------
+# A plain-string entry grants / denies EXACTLY that name.  Any way of storing or looking up the listed names other than
+# string equality (one alternation regex, prefix tries, substring tests, case folding, sorted search ..) goes wrong on
+# names that are not listed but share text with a listed one.  So every settings object is also crossed with probe names
+# derived from ITS OWN plain-string entries (whitelist, blacklist, remapping targets - those are blacklisted as strings):
+
+NEAR_CLASSES = ('extends-end', 'extends-start', 'contains', 'proper-prefix', 'proper-suffix', 'joined', 'case')
+_IDENT = re.compile(r'^[^\W\d]\w*$')
+NEAR_CAP = 16
+
+
+def listed_names(s):
+    out = []
+    for e in s['whitelist'] + s['blacklist']:
+        if e['k'] == 'str' and e['s'] not in out:
+            out.append(e['s'])
+    for _, t in s['remap']:
+        if t['n'] not in out:
+            out.append(t['n'])
+    return out
+
+
+def near_misses(listed, taken=()):
+    """-> [(probe name, class)]: names that are not listed (and not in `taken`) but extend a listed name at the end / at
+    the start, contain it, are a proper prefix / suffix of it, join two listed names, or differ from it by case only;
+    round-robin over the listed names so that a cap keeps every listed name and every class represented"""
+    per = []
+    for i, L in enumerate(listed):
+        c = [(L + 'x', 'extends-end'), ('x' + L, 'extends-start'), ('re' + L + '_t', 'contains'),
+             (L[:-1], 'proper-prefix'), (L[1:], 'proper-suffix'), (L + '_secret', 'extends-end'),
+             ('for' + L, 'extends-start'), (L.swapcase(), 'case')]
+        k = (3 * i) % len(c)            # another class first for each listed name: a cap keeps every class represented
+        per.append(c[k:] + c[:k])
+    pairs = [(a, b) for i, a in enumerate(listed) for b in listed[i + 1:]]
+    for j, (a, b) in enumerate(pairs[:3]):
+        per.append([(a + b, 'joined'), (b + a, 'joined')][::1 if j % 2 == 0 else -1])
+    out, seen = [], set(listed) | set(taken)
+    for k in range(max([len(c) for c in per] + [0])):
+        for c in per:
+            if k < len(c):
+                n, cls = c[k]
+                if n not in seen and _IDENT.match(n) and not n.startswith('_'):
+                    seen.add(n)
+                    out.append((n, cls))
+    return out[:NEAR_CAP]
+
+
+def probe_names(s):
+    """-> (names, {name: near-miss class}) the settings are crossed with"""
+    near = near_misses(listed_names(s), NAMES)
+    return NAMES + [n for n, _ in near], dict(near)
 
 
 def py_remap(remap):
@@ -632,10 +693,21 @@ def gen_settings(rng, idx):
     if idx >= 16 and rng.random() < 0.8:
         s['attrs'], s['methods'], s['indexer'] = (rng.random() < 0.85 for _ in range(3))
     mode = (idx // 2) % 5
+
+    def entries():
+        if rng.random() < 0.4:          # plain names only, at least two
+            if rng.random() < 0.5:
+                names = rng.choice(MULTI_NAMES)
+            else:
+                names = rng.sample(STR_ENTRIES, rng.choice([2, 2, 3, 4]))
+            names = list(names)
+            rng.shuffle(names)
+            return [dict(k='str', s=x) for x in names]
+        return [gen_entry(rng) for _ in range(rng.choice([1, 1, 2, 3]))]
     if mode in (1, 3):
-        s['whitelist'] = [gen_entry(rng) for _ in range(rng.choice([1, 1, 2, 3]))]
+        s['whitelist'] = entries()
     if mode in (2, 3, 4):
-        s['blacklist'] = [gen_entry(rng) for _ in range(rng.choice([1, 1, 2, 3]))]
+        s['blacklist'] = entries()
     return s
 
 
@@ -653,6 +725,14 @@ def systematic_settings():
                      remap=REMAPS[i % len(REMAPS)], byclass=(i % 2 == 1))
             s[side] = [e]
             out.append(s)
+    for i, names in enumerate(MULTI_NAMES):
+        for side in ('whitelist', 'blacklist'):
+            for order in (names, sorted(names), sorted(names, reverse=True)):
+                s = dict(attrs=True, methods=True, indexer=True, auto=False, whitelist=[], blacklist=[],
+                         remap=REMAPS[i % 3] if order is names else [], byclass=(i % 2 == 1))
+                s[side] = [dict(k='str', s=x) for x in order]
+                if s not in out:
+                    out.append(s)
     for r in REMAPS:
         for auto in (False, True):
             out.append(dict(attrs=True, methods=True, indexer=True, auto=auto, whitelist=[], blacklist=[],
@@ -750,7 +830,9 @@ def build_expr(form, name, with_child=False):
     return e, text
 
 
-def observe(s, form, name, with_child=False):
+def observe(s, form, name, with_child=False, text_only=False):
+    """`text_only`: the expression is parsed from its text only (names that can be written; used for the derived
+    near-miss names - the AST-vs-text comparison is made on the fixed names)"""
     global ENGINE, CTX
     if ENGINE is None:
         ENGINE = yaql.YaqlFactory().create()
@@ -762,10 +844,12 @@ def observe(s, form, name, with_child=False):
     del PLOG[:]
     del CLOG[:]
     try:
-        r = ex.Statement(e, ENGINE).evaluate(context=ctx)
+        r = (ENGINE(text) if text_only else ex.Statement(e, ENGINE)).evaluate(context=ctx)
         out, exc = repr(r), None
     except Exception as x:      # noqa
         out, exc = '%s: %s' % (type(x).__name__, x), type(x).__name__
+    if text_only:
+        return dict(log=list(PLOG), clog=list(CLOG), out=out, exc=exc, text=text)
     # the textual form must behave identically whenever it can be written
     if not name.startswith('__') or form != 'attr':
         obj2 = install(s)
@@ -849,10 +933,11 @@ def check_settings(s, drv, res, hist, replay_filter=None):
     """cross one settings object with every name x form; returns number of evaluations"""
     n = 0
     model = None
+    names, near = probe_names(s)
     if drv is not None:
         req = dict(yaqlized=s.get('yaqlized', True), attrs=s['attrs'], methods=s['methods'], indexer=s['indexer'],
-                   auto=s['auto'], whitelist=[model_entry(e) for e in s['whitelist']],
-                   blacklist=[model_entry(e) for e in s['blacklist']], remap=s['remap'], names=NAMES,
+                   auto=s['auto'], whitelist=[model_entry(e, names) for e in s['whitelist']],
+                   blacklist=[model_entry(e, names) for e in s['blacklist']], remap=s['remap'], names=names,
                    kws=['a'])
         rep = drv.ask(dict(p='C07', cases=[req]))
         model = rep['cases'][0]['rows']
@@ -860,13 +945,16 @@ def check_settings(s, drv, res, hist, replay_filter=None):
     else:
         child_model = None
     decisions = {}
-    for ni, name in enumerate(NAMES):
+    for ni, name in enumerate(names):
         for form in ('attr', 'method', 'index'):
             for with_child in ((False, True) if name in ('child', 'getChild', 'alias', 'nope', 'pub') else (False,)):
                 if replay_filter and (name, form, with_child) != replay_filter:
                     continue
-                o = observe(s, form, name, with_child)
+                o = observe(s, form, name, with_child, text_only=name in near)
                 n += 1
+                if name in near and 'near_miss' in hist:
+                    nk = '%s (%s)' % (near[name], 'whitelist' if s['whitelist'] else 'blacklist')
+                    hist['near_miss'][nk] = hist['near_miss'].get(nk, 0) + 1
                 key = '%s/%s%s' % (form, 'child/' if with_child else '', 'on' if s[SWITCH[form]] else 'off')
                 hist['forms'][key] = hist['forms'].get(key, 0) + 1
                 hist['outcomes'][o['exc'] or 'value'] = hist['outcomes'].get(o['exc'] or 'value', 0) + 1
@@ -983,7 +1071,8 @@ def shrink_settings(s, fails):
 def run_settings(env, res, only=None):
     rng = common.make_rng(env['seed'], 'C07')
     drv = env['driver']
-    hist = dict(settings=0, forms={}, outcomes={}, samples=0, entry_kinds={}, remaps={}, evaluations=0)
+    hist = dict(settings=0, forms={}, outcomes={}, samples=0, entry_kinds={}, remaps={}, evaluations=0, near_miss={},
+                plain_names_per_list={})
     if only:
         todo = [only['settings']]
     else:
@@ -1004,6 +1093,11 @@ def run_settings(env, res, only=None):
         for e in s['whitelist'] + s['blacklist']:
             hist['entry_kinds'][e['k']] = hist['entry_kinds'].get(e['k'], 0) + 1
         hist['remaps'][str(len(s['remap']))] = hist['remaps'].get(str(len(s['remap'])), 0) + 1
+        for side in ('whitelist', 'blacklist'):
+            k = len([e for e in s[side] if e['k'] == 'str'])
+            if s[side]:
+                hk = '%s: %s plain name(s)%s' % (side, k if k < 4 else '4+', '' if k == len(s[side]) else ' + other entries')
+                hist['plain_names_per_list'][hk] = hist['plain_names_per_list'].get(hk, 0) + 1
         if len(res.failures) > before and not only:
             f = res.failures[before]
             if f.replay.get('form'):
@@ -1206,8 +1300,10 @@ def run(env, res):
     res.rule = ('part A: one case per (FunctionDefinition of the live registry, parameter slot, other-argument variant, '
                 'canary as itself / in a list / in a dict, direct AST / call(name,args,kwargs), positional / keyword) plus '
                 'fixed text forms; all non-trivial (a host object is in the data).  part B: one case per (settings, '
-                'member name, access form[, .secret of the result]); non-trivial = the settings have a whitelist, '
-                'blacklist or remapping')
+                'member name, access form[, .secret of the result]); member names = the members of the probe class + names '
+                'derived from the settings\' own plain-name entries (extending one at either end, containing one, proper '
+                'prefix / suffix, two joined, case variant); lists of one, two, three and more plain names, some substrings '
+                'of each other; non-trivial = the settings have a whitelist, blacklist or remapping')
     if env['replay']:
         rp = json.load(open(env['replay']))['case']
         if rp.get('part') == 'B':
